@@ -279,6 +279,13 @@ fn alphabet(paths: &[String], unpriv: bool) -> Vec<Op> {
             Op::MkdirM(p.clone(), dm),
             Op::Mkfile(p.clone()),
             Op::MkfileM(p.clone(), fm),
+            // sticky / set-id bits are part of a mode on both backends
+            Op::MkdirM(p.clone(), dm | 0o1000),
+            Op::MkfileM(p.clone(), fm | 0o4000),
+            Op::Chmod(p.clone(), 0o1755),
+            // no permission bits at all (for the unprivileged workers the owner keeps access: see below)
+            Op::MkdirM(p.clone(), if unpriv { 0o700 } else { 0 }),
+            Op::MkfileM(p.clone(), if unpriv { 0o600 } else { 0 }),
             Op::WriteAll(p.clone(), b"w\n".to_vec()),
             Op::WriteLines(p.clone(), vec!["l1".into(), "".into()]),
             Op::AppendAll(p.clone(), b"+".to_vec()),
